@@ -17,7 +17,7 @@ def make(tier):
     P = Plan('C07', level='model_checking', design_ref='DESIGN.md section 5 C07')
     P.meta += ['history induction: every constructor establishes, and every operation preserves, the representation invariant (first <= last <= cap inside one allocation) and refines the std::vector model; the per-operation steps are checked from EVERY well-formed vector with capacity <= 4 and symbolic contents, so histories of any length over vectors within that capacity bound follow']
     P.workers = 5
-    P.not_decided += ['container::buffer (resize_write_area / written / append_from / read_from / to_raw_vector) - not built', 'raw_vector comparison, dynamic_array, io::read_chars', 'element types other than int (cheap operations) / unsigned char (insert and resize family); capacities above 4']
+    P.not_decided += ['raw_vector comparison, dynamic_array, io::read_chars', 'element types other than int (cheap operations) / unsigned char (insert and resize family); capacities above 4']
     C = {}
     C['vf_rv_push_back'] = ([ST], 'o->size == n + 1 && o->cap >= o->size && ' + elems(lambda k: '(%s < n ? %s : x)' % (k, A(k)), 5), 'push_back appends')
     C['vf_rv_push_back_alias'] = ([ST, 'k < n'], 'o->size == n + 1 && o->cap >= o->size && ' + elems(lambda k: '(%s < n ? %s : %s)' % (k, A(k), A('k')), 5), 'push_back(v[k]) appends the OLD value of the element (value aliasing an element, also across reallocation)')
@@ -53,6 +53,36 @@ def make(tier):
     import re
     spec = re.sub(r'(\w+)->size', r'\1->f0', spec); spec = re.sub(r'(\w+)->cap', r'\1->f1', spec); spec = re.sub(r'(\w+)->ret', r'\1->f2', spec); spec = re.sub(r'(\w+)->e\[', r'\1->f3.a[', spec)
     P.generated['c07.spec'] = spec
+    # ---- container::buffer (on 1-byte elements) ----
+    STB = 'c <= 4 && r <= 4 && w <= 4 && r + w <= c'
+    F = lambda k: '(%s == 0 ? f0 : (%s == 1 ? f1 : f2))' % (k, k)
+    app = lambda cnt: elems(lambda k: '(%s < r ? %s : %s)' % (k, A(k), F('(%s - r)' % k)), 7)
+    B = {}
+    B['vf_buf_ctor'] = (['c <= 4'], 'o->rsize == 0 && o->wsize == c && o->aux == 0', 'buffer(c): empty read area, write area of c elements')
+    B['vf_buf_state'] = ([STB], 'o->rsize == r && o->wsize == w && o->aux == w && ' + elems(A, 4), 'written(r) then resize_write_area(w) within the capacity: read area = the r written elements, write area = w')
+    B['vf_buf_written'] = ([STB, 'k <= w && k <= 3'], 'o->rsize == r + k && o->wsize == w - k && ' + app('k'), 'written(k): the first k elements of the write area join the read area')
+    B['vf_buf_resize'] = ([STB, 's <= 3'], 'o->rsize1 == r && o->wsize1 == s && o->aux == r && o->rsize == r + s && o->wsize == 0 && ' + app('s'), 'resize_write_area(s) (in place and reallocating): the read area is preserved, exactly s elements are writable behind it (all s are written: memory safety), and they become readable by written(s)')
+    B['vf_buf_append_from'] = ([STB, 's <= 3 && k <= s'], 'o->rsize1 == s && o->wsize1 == 1 && o->rsize == r + k && o->wsize == s - k && o->aux == 0 && ' + app('k'), 'append_from: the function is called once with the write area of the requested size; its result extends the read area; the moved-from buffer is empty')
+    B['vf_buf_append_from_opt'] = ([STB, 's <= 3 && k <= s'], 'o->rsize1 == s && o->wsize1 == (some != 0) && VF_IMP(some != 0, o->rsize == r + k && o->wsize == s - k && ' + app('k') + ')', 'append_from_opt: nothing exactly when the function returns nothing')
+    B['vf_buf_read_from'] = (['s <= 3 && k <= s'], 'o->rsize1 == s && o->rsize == k && o->wsize == s - k && ' + elems(F, 3), 'read_from: a fresh buffer whose read area is what the function wrote')
+    B['vf_buf_read_from_opt'] = (['s <= 3 && k <= s'], 'o->rsize1 == s && o->wsize1 == (some != 0) && VF_IMP(some != 0, o->rsize == k && o->wsize == s - k && ' + elems(F, 3) + ')', 'read_from_opt')
+    B['vf_buf_to_raw_vector'] = ([STB], 'o->rsize == r && o->wsize == c && o->aux == 0 && ' + elems(A, 4), 'to_raw_vector: the vector holds exactly the read area, capacity = the whole block; the buffer is left empty')
+    B['vf_buf_move_ctor'] = ([STB], 'o->rsize == r && o->wsize == w && o->aux == 0 && ' + elems(A, 4), 'buffer(buffer&&): takes over the areas; the source is empty')
+    B['vf_buf_move_assign'] = ([STB, 'c2 <= 2'], 'o->rsize == r && o->wsize == w && ' + elems(A, 4), 'buffer move assignment')
+    B['vf_buf_swap'] = ([STB, 'c2 <= 2', '__CPROVER_is_fresh(o2, sizeof(*o2))'], 'o->rsize == r && o->wsize == w && o2->rsize == 0 && o2->wsize == c2 && ' + elems(A, 4), 'buffer swap')
+    bspec = ''
+    for f, (req, ens, what) in B.items():
+        bspec += 'function %s\n  __CPROVER_requires(%s)\n' % (f, FO) + ''.join('  __CPROVER_requires(%s)\n' % r for r in req)
+        bspec += '  __CPROVER_assigns(%s)\n  __CPROVER_ensures(%s)\n' % (OW + (', __CPROVER_object_whole(o2)' if 'o2->' in ens else ''), ens)
+    for i, fld in enumerate(['rsize1', 'wsize1', 'rsize', 'wsize', 'aux']):
+        bspec = re.sub(r'(\w+)->%s\b' % fld, r'\1->f%d' % {'rsize': 0, 'wsize': 1, 'rsize1': 2, 'wsize1': 3, 'aux': 4}[fld], bspec)
+    bspec = re.sub(r'(\w+)->size\b', r'\1->f0', bspec)   # elems() speaks of o->size: the read size here
+    bspec = re.sub(r'(\w+)->e\[', r'\1->f5.a[', bspec)
+    P.generated['c07b.spec'] = bspec
+    uq = P.unit('buf', 'buf.cpp', specs=['c07b.spec'], inline=True, maxb=8, defines=['VF_ELEM=unsigned char'])
+    for f, (req, ens, what) in B.items():
+        uq.contract(f, cls='B', unwind=10, bound='container::buffer<unsigned char> with capacity <= 4 (every well-formed read/write split, symbolic contents), requests of at most 3 elements; memmove/memcpy with symbolic size = byte-loop model of at most 8 bytes',
+                    backends=['sat', 'cvc5'], timeout=1200, native=False, what='buffer: ' + what, cbmc=['--memory-leak-check'])
     HEAVY = lambda f: f.startswith('vf_rv_insert') or f.startswith('vf_rv_resize')
     u = P.unit('rv', 'shim.cpp', specs=['c07.spec'], inline=True, maxb=32)
     ub = P.unit('rvb', 'shim.cpp', specs=['c07.spec'], inline=True, maxb=8, defines=['VF_ELEM=unsigned char'])
